@@ -66,12 +66,13 @@ const REF_KINDS: [&str; 7] = [
     "nested TypedCroppedImage",
     "trait-default view",
 ];
-const MUT_KINDS: [&str; 5] = [
+const MUT_KINDS: [&str; 6] = [
     "TypedImage",
     "TypedCroppedImageMut::new",
     "TypedCroppedImageMut::from_ref",
     "nested TypedCroppedImageMut",
     "trait-default view",
+    "TypedImage over a buffer with spare rows",
 ];
 
 trait RefVisitor {
@@ -145,6 +146,12 @@ fn with_mut_view(kind: usize, root: &mut Raw, r: Rect, vis: &mut impl MutVisitor
             let p = TypedImage::<U16>::from_pixels_slice(rw, rh, as_pixels_mut::<U16>(root.buf.as_mut())).unwrap();
             let outer = TypedCroppedImageMut::new(p, r.x - ox, r.y - oy, rw - (r.x - ox), rh - (r.y - oy)).unwrap();
             let mut v = TypedCroppedImageMut::new(outer, ox, oy, r.w, r.h).unwrap();
+            vis.visit(&mut v)
+        }
+        5 => {
+            // the image is the top r.h rows of the root; the rows below are spare capacity of its buffer
+            assert!(r.x == 0 && r.y == 0 && r.w == rw);
+            let mut v = TypedImage::<U16>::from_pixels_slice(rw, r.h, as_pixels_mut::<U16>(root.buf.as_mut())).unwrap();
             vis.visit(&mut v)
         }
         _ => {
@@ -736,7 +743,7 @@ pub fn prop(tier: Tier, _seed: u64) -> Prop {
     }).isolated());
 
     // ---- mutable views, first level: every triple
-    let dimsm = vec![5u64, 2, b as u64, b as u64, 2];
+    let dimsm = vec![6u64, 2, b as u64, b as u64, 2];
     let d2 = dimsm.clone();
     p.spaces.push(Space::new("mutable views: kind x margin x (w,h) x direction x all triples (paint + inspect root)", product(&dimsm), move |idx, ctx| {
         let mut d = [0usize; 5];
@@ -745,7 +752,7 @@ pub fn prop(tier: Tier, _seed: u64) -> Prop {
         if whole_only_mut(kind) && margin != 0 {
             return;
         }
-        let (ml, mt, mr, mb) = if margin == 0 { (0, 0, 0, 0) } else { (margin + 1 + (w + h) % 2, margin - 1, 1 + h % 3, 2 + w % 2) };
+        let (ml, mt, mr, mb) = if kind == 5 { (0, 0, 0, margin + 1 + h % 2) } else if margin == 0 { (0, 0, 0, 0) } else { (margin + 1 + (w + h) % 2, margin - 1, 1 + h % 3, 2 + w % 2) };
         let (rw, rh) = (w + ml + mr, h + mt + mb);
         let view = Rect { x: ml, y: mt, w, h };
         ctx.sample(|| json!({"view_kind": MUT_KINDS[kind], "root": [rw, rh], "view": format!("{:?}", view), "direction": format!("{:?}", dir)}));
@@ -770,7 +777,7 @@ pub fn prop(tier: Tier, _seed: u64) -> Prop {
     }).isolated());
 
     // ---- mutable split-of-split
-    let dims3 = vec![5u64, 2, b2 as u64, b2 as u64, 2];
+    let dims3 = vec![6u64, 2, b2 as u64, b2 as u64, 2];
     let d3 = dims3.clone();
     p.spaces.push(Space::new("mutable split-of-split: kind x margin x (w,h)<=B2 x direction x valid triples x sub-triples", product(&dims3), move |idx, ctx| {
         let mut d = [0usize; 5];
@@ -779,7 +786,7 @@ pub fn prop(tier: Tier, _seed: u64) -> Prop {
         if whole_only_mut(kind) && margin != 0 {
             return;
         }
-        let (ml, mt, mr, mb) = if margin == 0 { (0, 0, 0, 0) } else { (margin + 1 + (w + h) % 2, margin - 1, 1 + h % 3, 2 + w % 2) };
+        let (ml, mt, mr, mb) = if kind == 5 { (0, 0, 0, margin + 1 + h % 2) } else if margin == 0 { (0, 0, 0, 0) } else { (margin + 1 + (w + h) % 2, margin - 1, 1 + h % 3, 2 + w % 2) };
         let (rw, rh) = (w + ml + mr, h + mt + mb);
         let view = Rect { x: ml, y: mt, w, h };
         ctx.sample(|| json!({"view_kind": MUT_KINDS[kind], "root": [rw, rh], "view": format!("{:?}", view), "direction": format!("{:?}", dir), "second_level": "both directions, sub-triples"}));
@@ -802,7 +809,7 @@ pub fn prop(tier: Tier, _seed: u64) -> Prop {
         ctx.class(mix(kind as u64 + 200, mix(margin as u64, (w.min(3) * 4 + h.min(3)) as u64 * 2 + d[4] as u64)));
     }).isolated());
 
-    p.rule = "view kind (7 immutable, 5 mutable incl. nested crops and a harness view that uses only the trait defaults) x parent margins {0,2} x view sizes (1..B)^2 x both directions x every (start,size,parts) incl. invalid ones and values near u32::MAX; immutable parts are read back against the rectangle model (tags), mutable parts paint their index and the root image is compared with the expected index map (sentinel outside); second level: every part is split again in both directions (sub-triples) for views up to B2 x B2 — mutable parts both mutably (paint) and immutably (position tags read back)".into();
+    p.rule = "view kind (7 immutable, 6 mutable incl. nested crops, a TypedImage whose buffer has spare rows, and a harness view that uses only the trait defaults) x parent margins {0,2} x view sizes (1..B)^2 x both directions x every (start,size,parts) incl. invalid ones and values near u32::MAX; immutable parts are read back against the rectangle model (tags), mutable parts paint their index and the root image is compared with the expected index map (sentinel outside); second level: every part is split again in both directions (sub-triples) for views up to B2 x B2 — mutable parts both mutably (paint) and immutably (position tags read back)".into();
     p.bounds = json!({"B": b, "B2": b2});
     p.assumptions = vec!["which parts receive the remainder rows is not prescribed and not checked (only sizes differing by at most one, order and contiguity)".into()];
     p
